@@ -31,8 +31,8 @@ man = {
     "version": 1,
     "setup_cmd": "./setup.sh",
     "hooks": {
-        "guard": "--cfg jsonrpsee_verif (hooks are also active under cfg(kani))",
-        "enable": "Kani builds set cfg(kani) for every crate; native replay builds use RUSTFLAGS='--cfg jsonrpsee_verif'",
+        "guard": "--cfg jsonrpsee_verif",
+        "enable": "the native replay crate is built with RUSTFLAGS='--cfg jsonrpsee_verif' (mirsym/nativereplay.py); nothing else uses the hooks",
         "baseline_off_cmd": "cd /repo && cargo nextest run --workspace --no-fail-fast --tool-config-file pb:/w/lib/nextest.toml --profile pb --test-threads 8 --offline",
         "source_commits": json.load(open(os.path.join(VERIF, "lib", "hook_commits.json"))),
         "add_only": True,
